@@ -128,6 +128,9 @@ func (c *Ctx) nilSource(v ssa.Value, nilFuncs map[*ssa.Function]bool) string {
 // derefUses: instructions that panic if v is nil.
 func (c *Ctx) derefUses(v ssa.Value) []ssa.Instruction {
 	var out []ssa.Instruction
+	if c.derefVia == nil {
+		c.derefVia = map[ssa.Instruction]ssa.Value{}
+	}
 	seen := map[ssa.Value]bool{}
 	var walk func(x ssa.Value)
 	walk = func(x ssa.Value) {
@@ -144,36 +147,48 @@ func (c *Ctx) derefUses(v ssa.Value) []ssa.Instruction {
 			case *ssa.FieldAddr:
 				if u.X == x {
 					out = append(out, u)
+					c.derefVia[u] = x
 				}
 			case *ssa.Field:
 			case *ssa.UnOp:
 				if u.Op == token.MUL && u.X == x {
 					out = append(out, u)
+					c.derefVia[u] = x
 				}
 			case *ssa.Store:
 				if u.Addr == x {
 					out = append(out, u)
+					c.derefVia[u] = x
 				}
 			case *ssa.IndexAddr:
 				if u.X == x {
 					if _, isPtr := x.Type().Underlying().(*types.Pointer); isPtr {
 						out = append(out, u)
+						c.derefVia[u] = x
 					}
 				}
 			case *ssa.MapUpdate:
 				// writes to nil maps are the subject of NIL-MAP
 			case *ssa.TypeAssert:
 				if !u.CommaOk && u.X == x {
-					out = append(out, u) // x.(T) on a nil interface panics
+					out = append(out, u)
+					c.derefVia[u] = x // x.(T) on a nil interface panics
 				}
 			case ssa.CallInstruction:
 				com := u.Common()
+				// types.Unalias(nil) is nil: the result is as nilable as the argument
+				if cv, isVal := u.(ssa.Value); isVal && !com.IsInvoke() && c.P.calleeName(com) == "go/types.Unalias" && len(com.Args) == 1 && com.Args[0] == x {
+					walk(cv)
+					continue
+				}
 				if com.IsInvoke() && com.Value == x {
 					out = append(out, u)
+					c.derefVia[u] = x
 					continue
 				}
 				if !com.IsInvoke() && com.Value == x {
-					out = append(out, u) // calling a nil func value
+					out = append(out, u)
+					c.derefVia[u] = x // calling a nil func value
 					continue
 				}
 				if callee := com.StaticCallee(); callee != nil && len(com.Args) > 0 && com.Args[0] == x && callee.Signature.Recv() != nil {
@@ -181,10 +196,12 @@ func (c *Ctx) derefUses(v ssa.Value) []ssa.Instruction {
 					if c.P.IsProductFunc(callee) && len(callee.Blocks) > 0 {
 						if !c.paramNilSafe(callee, 0, 0) {
 							out = append(out, u)
+							c.derefVia[u] = x
 						}
 					} else if _, isPtr := x.Type().Underlying().(*types.Pointer); isPtr {
 						if !nilSafeLibMethods[FuncName(callee)] {
 							out = append(out, u)
+							c.derefVia[u] = x
 						}
 					}
 					continue
@@ -194,11 +211,14 @@ func (c *Ctx) derefUses(v ssa.Value) []ssa.Instruction {
 					for i, a := range com.Args {
 						if a == x && i < len(callee.Params) && !c.paramNilSafe(callee, i, 0) {
 							out = append(out, u)
+							c.derefVia[u] = x
 						}
 					}
 				}
 			case *ssa.Phi:
-				// a phi of a nilable value stays nilable only if no edge is guarded; followed conservatively
+				// a join that may carry the nilable value: its dereferences count as well (a nil check of the
+				// joined value, or of the source itself, discharges them)
+				walk(u)
 			case *ssa.ChangeType:
 				walk(u)
 			case *ssa.MakeInterface:
@@ -238,6 +258,15 @@ func (c *Ctx) paramNilSafe(fn *ssa.Function, idx int, depth int) bool {
 // nilGuarded: at instruction u, value v is known non-nil (a nil check of v, or of a value with the same
 // descriptor, guards u; for comma-ok results: the ok flag).
 func (c *Ctx) nilGuarded(u ssa.Instruction, v ssa.Value) bool {
+	if via := c.derefVia[u]; via != nil && via != v {
+		if c.nilGuarded1(u, via) {
+			return true
+		}
+	}
+	return c.nilGuarded1(u, v)
+}
+
+func (c *Ctx) nilGuarded1(u ssa.Instruction, v ssa.Value) bool {
 	P := c.P
 	vd := P.Desc(v)
 	for _, l := range P.Expand(P.Guards(u)) {
